@@ -164,7 +164,12 @@ def r4(ctx):
         dr = [t for bb, t in b.calls(re.compile(r"^std::vec::Vec::drain$")) if _on_field(b, t["args"][0], "turmoil_net::fixture::scheduler::Scheduler::pending")]
         ctx.inst(R, "tick:due-prefix", okpos and len(pos) == 1 and len(dr) == 1, b.span, "due packets = prefix before the first deliver_at > now, drained front to back" if okpos and pos and dr else
                  "the due prefix is not computed as position(|s| s.deliver_at > now) and drained from the front")
-        # now advanced before delivering
+        # the clock is advanced before the due prefix is computed
+        adv = [bb for bb, t in b.calls(re.compile(r"Instant as std::ops::AddAssign>::add_assign$|Duration as std::ops::AddAssign>::add_assign$"))
+               if "field:turmoil_net::fixture::scheduler::Scheduler::now" in Slicer(ctx.w).atoms(b, t["args"][0])]
+        okadv = len(adv) == 1 and bool(pos) and all(b.dominated_by_block(x, adv[0]) for x, _ in pos) and any(a.startswith("arg:3:") for a in Slicer(ctx.w).atoms(b, b.term(adv[0])["args"][1]))
+        ctx.inst(R, "tick:clock-advances-first", okadv, b.span, "now += dt happens before due packets are selected" if okadv else
+                 "Scheduler::tick does not advance `now` by dt before selecting due packets (deliveries slip by a tick)")
     s = ctx.body(R, "turmoil_net::fixture::scheduler::Scheduler::schedule")
     if s:
         SEARCH = re.compile(r"binary_search_by$|binary_search_by_key$|partition_point$|Iterator>::position$|^std::iter::Iterator::position$")
@@ -202,7 +207,7 @@ def r4(ctx):
             if "field:turmoil_net::fixture::scheduler::Scheduler::now" in a0 and any(a.startswith("arg:3:") for a in a1):
                 da = True
         ctx.inst(R, "schedule:deadline", da, s.span, "deadline = now + delay" if da else "deadline is not now + delay")
-    ctx.floor(R, 6)
+    ctx.floor(R, 7)
 
 
 def r5(ctx):
